@@ -87,8 +87,9 @@ def run_case(case, tid):
         buf.write(f"p{i + 1},{a},BATCH_PIPELINE,op1,,1,const,,1\n")
     buf.seek(0)
     reader = CSVWorkloadReader(buf)
-    wl = reader.get_workload(tps)
     usage = (tid * 2654435761) % 10          # legal but less common ways of using the reader and its result (deterministic per case)
+    # (usage 2: a sweep over tick rates with ONE reader object - the first replay runs at another rate than the one that is measured)
+    wl = reader.get_workload(tps if usage != 2 else (tps * 10 if tid % 3 else max(1, tps // 2)))
     if usage in (1, 2):
         # one reader object used for a second replay of the rewound file (e.g. a loop comparing schedulers on one trace):
         # the first replay is consumed a little, the second one must start from the beginning
